@@ -6,7 +6,7 @@ package main
 //	scan   \t <init> <max> \t <reader script> \t <impl: tokens and final error>
 //
 // reader script: d:<hex> (data) | de:<hex> (data returned together with an error) | e (0, error) | z (0, nil); then io.EOF
-// writer script: ok | fail | short:<n>; then ok for ever
+// writer script: ok | fail | short:<n> | full; then ok for ever
 // proc: default | tolerant | failat:<n>
 // obs:  ret=<class|-> calls=<1|0>:<class|->,… writes=<hex>;<hex>;…
 
@@ -93,6 +93,10 @@ func (w *scriptWriter) Write(p []byte) (int, error) {
 	case ev == "fail":
 		w.writes = append(w.writes, []byte{})
 		return 0, errInjected
+	case ev == "full":
+		// everything is written and an error is returned all the same (a writer that syncs after writing)
+		w.writes = append(w.writes, append([]byte{}, p...))
+		return len(p), errInjected
 	case strings.HasPrefix(ev, "short:"):
 		var n int
 		fmt.Sscanf(ev, "short:%d", &n)
@@ -282,6 +286,11 @@ func genC08(cw *caseWriter, seed uint64, tier string) {
 		[]byte("{\"a\":1}\r\n\n{\"a\":\"x\"}\n{\"a\":3}\n"),
 		[]byte(""),
 		[]byte("{\"a\":1}"),
+		// other framings of the same rows (a JSON array over several lines, one array on one line, objects
+		// separated by CR only, a pretty-printed object): every line of them is judged on its own
+		[]byte("[\n{\"a\":1},\n{\"a\":2}\n]\n"),
+		[]byte("[{\"a\":1},{\"a\":2}]\n{\"a\":3}\n"),
+		[]byte("{\"a\":1}\r{\"a\":2}\n{\n\"a\":3\n}\n{\"a\":4}\n"),
 	}
 	procs := []string{"default", "tolerant", "failat:1"}
 	if tier == "thorough" {
@@ -322,6 +331,9 @@ func genC08(cw *caseWriter, seed uint64, tier string) {
 				w2 := append([]string{}, w...)
 				w2[j] = fmt.Sprintf("short:%d", 1+r.intn(5))
 				emitStream(cw, "C08", ti, to, proc, chunk(data, []int{1 << 20}), w2, data, true)
+				w3 := append([]string{}, w...)
+				w3[j] = "full"
+				emitStream(cw, "C08", ti, to, proc, chunk(data, []int{7}), w3, data, true)
 			}
 		}
 	}
